@@ -56,12 +56,17 @@ class C14Spec(explore.Spec):
                 out.append({"version": v, "persistence": fmt, "cb": "record"})
         out.append({"version": "2.2", "persistence": "json", "cb": "raise"})
         out.append({"version": "2.2", "persistence": "pickle", "cb": None})
+        # the application lets traffic in before it calls start_persistence() (also in a later life, on an existing file)
+        out += [{"version": "2.2", "persistence": fmt, "cb": "record", "defer_start": True, "depth": 5 if tier == "quick" else 6} for fmt in ("json", "pickle")]
         return out
 
     def alphabet(self, cfg):
         v = cfg["version"]
+        if cfg.get("defer_start"):
+            return alpha.events(v, ["PA", "CA0", "SA0", "BAT", "PB", "IDR"]) + [("tick",), ("restart",), ("startp",)]
         evs = alpha.events(v, NAMES)
         evs += [("tick",), ("tickfail", "fsync"), ("tickfail", "rename"), ("set", 1, 0, 2, "0"), ("fw", 1, 1, 1, "F1")]
+        evs.append(alpha.rx(f"0;255;0;0;18;{v}"))  # the gateway's own node id 0 presents itself
         if self.tier == "thorough":
             evs += alpha.events(v, ["PB", "SA0z", "CA1"])
         return evs
@@ -75,6 +80,8 @@ class C14Spec(explore.Spec):
             return []
         before = world.tree()
         obs = world.apply(("restart",))
+        if obs.exc is None and cfg.get("defer_start"):
+            obs = world.apply(("startp",))
         monitor.stats["stop_restart_forks"] += 1
         if before:
             monitor.stats["forks_with_nonempty_tree"] += 1
